@@ -28,7 +28,7 @@ def _alarm(signum, frame):
 
 def P(gen, **kw):
     p = {"gen": gen, "n": 0, "m": 0, "sizes": [], "zero": [], "one": [], "norepeat": False, "nodes": [], "maxdeg": [],
-         "blocks": [], "pzero": [], "pone": [], "links": [], "k": 0, "l": 0, "d": 0, "c": 0, "a": 0, "b": 0}
+         "blocks": [], "pzero": [], "pone": [], "links": [], "k": 0, "l": 0, "d": 0, "c": 0, "a": 0, "b": 0, "src": []}
     p.update(kw)
     return p
 
@@ -109,6 +109,27 @@ def cases(rng, seeds):
     for s in seeds:
         out.append(("uniform_HPPM(n=6,m=2,k=2,epsilon=0.5)", P("random", n=6, sizes=[2], norepeat=False),
                     lambda s=s: xgi.uniform_HPPM(6, 2, 2, 0.5, seed=s)))
+    # randomizing generators (a new hypergraph derived from a source) and the trivial ones
+    for src in ([[0, 1, 2], [1, 2, 3], [3, 4], [0, 4], [2, 3, 4], [5]], [[0, 1], [1, 2], [2, 3], [0, 1, 2]],
+                [[0, 1, 2], [0, 1], [0, 2], [1, 2], [2, 3]]):
+        nodes_ = sorted({x for m in src for x in m})
+        mk = lambda src=src: xgi.Hypergraph(src)  # noqa: E731
+        for d in sorted({len(m) - 1 for m in src}):
+            for prob in (0, 0.5, 1):
+                for s in seeds[:3]:
+                    out.append((f"shuffle_hyperedges(order={d},p={prob})",
+                                P("shuffle", nodes=nodes_, src=src, d=d, zero=[1] if prob == 0 else []),
+                                lambda mk=mk, d=d, prob=prob, s=s: xgi.shuffle_hyperedges(mk(), d, prob, seed=s)))
+            inord = sorted({x for m in src if len(m) == d + 1 for x in m})
+            for a, b in ((inord[0], inord[-1]), (inord[0], inord[1])) if len(inord) >= 2 else ():
+                out.append((f"node_swap({a},{b},order={d})", P("node_swap", nodes=nodes_, src=src, d=d, a=a, b=b),
+                            lambda mk=mk, a=a, b=b, d=d: xgi.node_swap(mk(), a, b, order=d)))
+        out.append((f"node_swap({nodes_[0]},{nodes_[-1]})", P("node_swap", nodes=nodes_, src=src, d=-1, a=nodes_[0], b=nodes_[-1]),
+                    lambda mk=mk, a=nodes_[0], b=nodes_[-1]: xgi.node_swap(mk(), a, b)))
+    for n in (0, 1, 4):
+        out.append((f"trivial_hypergraph({n})", P("trivial", n=n), lambda n=n: xgi.trivial_hypergraph(n)))
+        for f in (xgi.empty_hypergraph, xgi.empty_simplicial_complex):
+            out.append((f"{f.__name__}()", P("trivial", n=0), lambda f=f: f()))
     # configuration-type models
     for k in ({0: 1, 1: 2, 2: 3, 3: 2}, {0: 2, 1: 2, 2: 2}, {"a": 1, "b": 1, "c": 2},
               {(0, 0): 1, (0, 1): 2, (1, 0): 2, (1, 1): 1}, {frozenset({1}): 2, frozenset({2}): 1, frozenset({1, 2}): 1}):
